@@ -57,13 +57,14 @@ Print Assumptions C07_honours_data.
    calls with any seed / position / mesh type / store names / raw-kriging storing / external drift, set_pos, set_condition,
    in-place model change, model replacement or re-assignment of the same edited object, mean / trend / normalizer
    re-assignment, set_generator, in-place edits of arrays the caller passed (positions, conditions), direct calls of the
-   Krige object, csrf.pos = ... — a call made while the kriging setup is up to date returns the field a freshly built
-   object returns for the present settings, target (positions, external drift) and seed *)
+   Krige object, csrf.pos = ..., calls of OTHER CondSRF objects sharing the same Krige object (the name key ns encodes
+   the called object: obj_of ns = ns / 4) — a call made while the kriging setup is up to date returns the field a freshly
+   built object returns for the present settings, target (positions, external drift) and the seed of the called object *)
 Theorem C07_cache_coherent :
   forall (sd0 : nat) (ops : list Op) (p : option (Pos * bool)) (sd : option nat) (srk : bool) (ns xd : nat),
   let s := run repaired ops (init sd0) in
   forall s' o, step repaired s (Call p sd srk ns xd) = (s', RField o) -> refreshed s' ->
-  same_field (RField o) (fresh_result s').
+  same_field (RField o) (fresh_result s' (obj_of ns)).
 Proof. exact cache_coherent. Qed.
 Print Assumptions C07_cache_coherent.
 
@@ -166,6 +167,13 @@ Theorem C07_cache_coherent_refuted_no_ext_token :
   stale no_ext_token 7 [Call (Some (mkPos 0 0 0, false)) None true 0 1] (Call None None true 0 2).
 Proof. exact no_ext_token_refuted. Qed.
 Print Assumptions C07_cache_coherent_refuted_no_ext_token.
+
+(* the reference dict as a class attribute shared by all CondSRF objects (two objects on one Krige) *)
+Theorem C07_cache_coherent_refuted_class_level_ref :
+  stale class_level_ref 7 [Call (Some (mkPos 0 0 0, false)) None true 0 0; Call None None true 4 0; SetCond NewVals;
+                           Call None None true 0 0] (Call None None true 4 0).
+Proof. exact class_level_ref_refuted. Qed.
+Print Assumptions C07_cache_coherent_refuted_class_level_ref.
 
 (* far from the data under simple kriging (estimate 0, variance = sill): exactly the unconditional field *)
 Theorem C07_far_field_limit_point : forall nug var r zn : R, 0 <= nug -> 0 < var ->
